@@ -67,7 +67,7 @@ def single_edits_light(s):
             yield s[:i] + bytes([b]) + s[i + 1:]
 
 
-def _judge(text, mode, reused, tmpdir, viols, counts, distinct):
+def _judge(text, mode, reused, tmpdir, viols, counts, distinct, oracle=None):
     """mode: 'bytes' | 'str' | 'file'"""
     kw = {}
     arg = text
@@ -92,14 +92,16 @@ def _judge(text, mode, reused, tmpdir, viols, counts, distinct):
     c.pda, c.toks, c.lerr = E.ref_run(text)
     c.v = c.pda.end(c.lerr)
     distinct.add((obs.verdict, obs.error if obs.error else None))
-    for v in E.oracle_c02(c):
+    for v in (oracle or E.oracle_c02)(c):
         v["mode"] = mode
         v["signature"] = v["signature"] + [mode if mode != "bytes" else None]
         viols.append(v)
 
 
 def byte_task(t):
-    idx, double, with_modes = t
+    idx, double, with_modes = t[:3]
+    # the same neighbourhoods under another property's oracle (C01: verdict against the reference recogniser)
+    oracle = {"c01": E.oracle_c01}[t[3]] if len(t) > 3 else None
     ns = seams.load()
     s = CORPUS[idx]
     viols = []
@@ -110,7 +112,7 @@ def byte_task(t):
     try:
         gen = double_edits(s) if double else single_edits(s)
         for text in gen:
-            _judge(text, "bytes", None, tmpdir, viols, counts, distinct)
+            _judge(text, "bytes", None, tmpdir, viols, counts, distinct, oracle)
             if with_modes:
                 _judge(text, "bytes", reused, tmpdir, viols, counts, distinct)
                 _judge(text, "str", None, tmpdir, viols, counts, distinct)
@@ -141,6 +143,11 @@ FAMILIES = {
     "numbers": lambda n: b"if size :over " + b"9" * n + b" {keep;}",
 }
 NESTING = {"blocks", "nots", "unterminated-blocks", "nested-testlists"}
+# the same shapes after a require (work done only for scripts that load extensions must scale too)
+for _name in ("blocks", "nots", "nested-testlists", "commands", "elsif-chain", "testlist", "list"):
+    FAMILIES["req+" + _name] = (lambda n, f=FAMILIES[_name]: b'require ["fileinto", "copy"];\nfileinto :copy "x";\n' + f(n))
+    if _name in NESTING:
+        NESTING = NESTING | {"req+" + _name}
 
 
 def pump_task(t):
